@@ -289,6 +289,7 @@ def check(prog, rep):
     r3 = rep.rule("R3", "heavy-atom movers run only when debumping/optimisation is requested", floor=4)
     nt = prog.func("main.py", "non_trivial").node
     mover = "debump.py::Debump.set_dihedral_angle"
+    n_gate = {}
     for c in calls_in(nt):
         targets, _ = g.resolve(prog.funcs["main.py::non_trivial"], c)
         if not targets:
@@ -309,12 +310,15 @@ def check(prog, rep):
             ok = no_assign  # acts on the optimisation list built by one of the two initialisers
         else:
             ok = no_assign and (("args.debump", True) in gs or ("args.opt", True) in gs)
-        r3.add(f"gate|{nm}:{c.lineno - nt.lineno}", ok, f"{nm}() can reach set_dihedral_angle; guards {gs}",
+        n_gate[nm] = n_gate.get(nm, 0) + 1
+        r3.add(f"gate|{nm}#{n_gate[nm]}", ok, f"{nm}() can reach set_dihedral_angle; guards {gs}",
                f"pdb2pqr/main.py:{c.lineno} (non_trivial)")
     ta = prog.func("main.py", "transform_arguments").node
-    first = ta.body[0] if not isinstance(ta.body[0], ast.Expr) else ta.body[1]
-    ok = isinstance(first, ast.If) and U(first.test) in ("args.assign_only or args.clean", "args.clean or args.assign_only") \
-        and {U(s.targets[0]): U(s.value) for s in first.body if isinstance(s, ast.Assign)} == {"args.debump": "False", "args.opt": "False"}
+    switches = [st for st in ta.body if isinstance(st, ast.If) and U(st.test) in ("args.assign_only or args.clean", "args.clean or args.assign_only")
+                and {U(s.targets[0]): U(s.value) for s in st.body if isinstance(s, ast.Assign)} == {"args.debump": "False", "args.opt": "False"}]
+    later = [s for st in ta.body[ta.body.index(switches[-1]) + 1:] for s in iter_stmts([st]) if isinstance(s, ast.Assign)
+             and U(s.targets[0]) in ("args.debump", "args.opt") and U(s.value) != "False"] if switches else []
+    ok = bool(switches) and not later
     r3.add("assign-only/clean-switch-off", ok, "transform_arguments clears debump and opt under --assign-only/--clean",
            f"pdb2pqr/main.py:{ta.lineno} (transform_arguments)")
     md = prog.func("main.py", "main_driver").node
